@@ -50,7 +50,7 @@ package modules
 //@   ensures !panicked ==> err == fnErr
 
 // counters of a module are valid cells
-//@ spec cntOK(m *Module) bool = m != nil && m.workerCnt != nil && m.taskCnt != nil && m.microTaskCnt != nil
+//@ spec cntOK(m *Module) bool = m != nil && m.workerCnt != nil && m.taskCnt != nil && m.microTaskCnt != nil && m.stopFlag != nil && m.ctrlFuncRunning != nil && m.stopCompleted != nil
 
 // Accounting is stated as NET CONTRIBUTION: the sum of this function's own atomic additions to
 // the counter is zero on every exit (also after a recovered panic). Summed over all threads this
@@ -72,6 +72,7 @@ package modules
 // error, was cancelled, the module stops or its context ends - any other error (also a panic error) restarts it
 //@ func (*Module).runServiceWorker
 //@   requires cntOK(m)
+//@   assume !typeIs(context.Canceled, *ModuleError)
 //@   nopanic off
 //@   modifies *
 //@   ghost var net int32 = 0
@@ -87,12 +88,13 @@ package modules
 //@   at after (*Module).runWorker ghost selected = 0
 //@   at select ghost selected = 1
 //@   at return assert stopping || lastErr == nil || cancelled || selected == 1
+//@   at return assert typeIs(lastErr, *ModuleError) ==> stopping || selected == 1
 //@   ensures net == 0
 //@   loop 0 invariant net == 1
 
 // lifecycle control functions: a panic is recovered, reported, and turned into exactly one error on the result channel
 //@ func (*Module).startCtrlFn$1
-//@   requires m != nil && ctrlFnError != nil
+//@   requires cntOK(m) && ctrlFnError != nil
 //@   modifies *
 //@   maypanic dynamic
 //@   recovers
